@@ -1,35 +1,49 @@
 (* Sessions with QuickShift estimator objects (C16, layer D): the constructor, its rejection
-   branch, the guard of fit, and what survives from one call to the next.
+   branch, set_params on the constructor parameters, the guards of fit, and what survives from one
+   call to the next.
 
    Model of /repo/src/skmatter/clustering/_quick_shift.py as a state machine.  The state holds
    - the caller's cut-off arrays [s_cuts] (units of 1/8; each may be handed to any number of
-     constructors),
-   - the caller's data sets [s_data] (dimension of X, integer squared distance matrix of X under
-     the session's metric, weights),
-   - the estimator objects [s_est]: their attributes dist_cutoff_sq (the estimator's OWN array
-     `dist_cutoff_sq * scale**2`, units of 1/32), gabriel_shell, labels_.
+     constructors / set_params calls),
+   - the caller's cell arrays [s_cells] (only their length matters here),
+   - the caller's data sets [s_data]: dimension of X, the integer squared distance matrices of X
+     under every metric configuration ([q_D]: index 0 = no cell, k+1 = cell k), weights,
+   - the estimator objects [s_est]: their attributes
+       dist_cutoff_sq  [e_cut]   (the estimator's OWN array `dist_cutoff_sq * scale**2` after
+                                  __init__; whatever set_params put there afterwards; units 1/32),
+       gabriel_shell   [e_shell],
+       metric_params["cell_length"] [e_cell]  (read by the metric closure WHEN fit CALLS IT),
+       cell            [e_cell0] (set by __init__ only -- set_params does not refresh it; it feeds
+                                  the first guard of fit),
+       labels_         [e_labels].
    Nothing else survives a call: fit builds dist_matrix, gabrial, idmindist, idxroot afresh.
    Definitions only. *)
 From Verif Require Export ListX QuickShift.
 
-Record qdata := mkData { q_dim : nat; q_D : list (list ExtZ); q_w : list Z }.
-Record qest := mkEst { e_cut : option (list Z); e_shell : option nat; e_labels : option (list (option nat)) }.
-Record qstate := mkState { s_cuts : list (list Z); s_data : list qdata; s_est : list qest }.
+Record qdata := mkData { q_dim : nat; q_D : list (list (list ExtZ)); q_w : list Z }.
+Record qest := mkEst { e_cut : option (list Z); e_shell : option nat;
+                       e_cell : option nat; e_cell0 : option nat;
+                       e_labels : option (list (option nat)) }.
+Record qstate := mkState { s_cuts : list (list Z); s_cells : list nat; s_data : list qdata; s_est : list qest }.
 
-Definition no_est : qest := mkEst None None None.           (* a name not bound to an estimator yet *)
+Definition no_est : qest := mkEst None None None None None.   (* a name not bound to an estimator yet *)
 Definition no_data : qdata := mkData 0 [] [].
 
 Inductive qop :=
-| New (e : nat) (c : option nat) (s2 : Z) (sh : option nat)
-    (* est[e] = QuickShift(dist_cutoff_sq = cuts[c] (or None), gabriel_shell = sh, scale = s2/2) *)
+| New (e : nat) (c : option nat) (s2 : Z) (sh : option nat) (cell : option nat)
+    (* est[e] = QuickShift(dist_cutoff_sq = cuts[c] | None, gabriel_shell = sh, scale = s2/2,
+                           metric_params = {"cell_length": cells[cell] | None}) *)
 | Fit (e d : nat)                    (* est[e].fit(X_d, samples_weight = w_d) *)
-| SetShell (e : nat) (sh : nat)      (* est[e].gabriel_shell = sh *)
+| SetShell (e : nat) (sh : nat)      (* est[e].set_params(gabriel_shell = sh)  /  est[e].gabriel_shell = sh *)
+| SetCell (e : nat) (cell : option nat)   (* est[e].set_params(metric_params = {"cell_length": cells[cell] | None}) *)
+| SetCut (e : nat) (c : option nat)  (* est[e].set_params(dist_cutoff_sq = cuts[c] | None): stored as given, NOT scaled *)
+| SetScale (e : nat) (s2 : Z)        (* est[e].set_params(scale = s2/2): the attribute is not read by fit *)
 | SetW (d : nat) (w : list Z)        (* the CALLER overwrites w_d in place *)
 | Read (e : nat).                    (* look at est[e].labels_ *)
 
 Inductive qobs :=
 | ObsErr                                                   (* the call raised *)
-| ObsNew (cutattr : option (list Z))                       (* est.dist_cutoff_sq after construction *)
+| ObsNew (cutattr : option (list Z))                       (* est.dist_cutoff_sq after construction / set_params *)
 | ObsFit (labels : list (option nat)) (ctr : list nat)     (* labels_, cluster_centers_idx_ *)
 | ObsRead (labels : option (list (option nat)))            (* None: the attribute does not exist *)
 | ObsUnit.
@@ -37,62 +51,89 @@ Inductive qobs :=
 Definition get_est (S : qstate) (e : nat) : qest := nth e (s_est S) no_est.
 Definition get_data (S : qstate) (d : nat) : qdata := nth d (s_data S) no_data.
 Definition set_est (S : qstate) (e : nat) (x : qest) : qstate :=
-  mkState (s_cuts S) (s_data S) (upd_nth e x (s_est S)).
+  mkState (s_cuts S) (s_cells S) (s_data S) (upd_nth e x (s_est S)).
 Definition set_data (S : qstate) (d : nat) (q : qdata) : qstate :=
-  mkState (s_cuts S) (upd_nth d q (s_data S)) (s_est S).
+  mkState (s_cuts S) (s_cells S) (upd_nth d q (s_data S)) (s_est S).
+
+(* the distance matrix of data q under metric configuration [cell] *)
+Definition dsel (q : qdata) (cell : option nat) : list (list ExtZ) :=
+  nth (match cell with None => 0%nat | Some k => S k end) (q_D q) [].
 
 (* __init__: ValueError unless one of the two rules is configured; the scaled cut-offs are a NEW
    array (`self.dist_cutoff_sq * self.scale**2`), the caller's array is only read *)
-Definition construct (cuts : list (list Z)) (c : option nat) (s2 : Z) (sh : option nat) : option qest :=
+Definition construct (cuts : list (list Z)) (c : option nat) (s2 : Z) (sh : option nat) (cell : option nat)
+  : option qest :=
   match c, sh with
   | None, None => None
-  | _, _ => Some (mkEst (option_map (fun ci => eff_cut (nth ci cuts []) s2) c) sh None)
+  | _, _ => Some (mkEst (option_map (fun ci => eff_cut (nth ci cuts []) s2) c) sh cell cell None)
   end.
 
-(* the body of fit after the guard: the rule is chosen by `self.dist_cutoff_sq is None` *)
-Definition est_fit (x : qest) (q : qdata) : option (list (option nat)) :=
-  match e_cut x with
-  | Some ec => fit_cut (scaleD 32 (q_D q)) (q_w q) ec
-  | None => match e_shell x with
-            | Some sh => fit_gab (q_D q) (q_w q) sh
+(* the effect of one configuration call on the estimator record it addresses
+   (set_params = setattr of the constructor parameter, nothing else):
+   dist_cutoff_sq given to set_params is used as it is, i.e. as with scale 1 (s2 = 2) *)
+Definition cfg_step (cuts : list (list Z)) (x : qest) (o : qop) : qest :=
+  match o with
+  | New _ c s2 sh cell => match construct cuts c s2 sh cell with Some y => y | None => x end
+  | SetShell _ sh => mkEst (e_cut x) (Some sh) (e_cell x) (e_cell0 x) (e_labels x)
+  | SetCell _ cell => mkEst (e_cut x) (e_shell x) cell (e_cell0 x) (e_labels x)
+  | SetCut _ c => mkEst (option_map (fun ci => eff_cut (nth ci cuts []) 2) c) (e_shell x) (e_cell x) (e_cell0 x) (e_labels x)
+  | _ => x
+  end.
+
+(* the body of fit after the guards, from the parameters in force: the rule is chosen by
+   `self.dist_cutoff_sq is None`; gabriel_shell None in Gabriel mode makes range(1, None) raise *)
+Definition fit_of_params (cut : option (list Z)) (sh : option nat) (D : list (list ExtZ)) (w : list Z)
+  : option (list (option nat)) :=
+  match cut with
+  | Some ec => fit_cut (scaleD 32 D) w ec
+  | None => match sh with
+            | Some s => fit_gab D w s
             | None => None
             end
   end.
+Definition est_fit (x : qest) (q : qdata) : option (list (option nat)) :=
+  fit_of_params (e_cut x) (e_shell x) (dsel q (e_cell x)) (q_w q).
 
-(* `(self.cell is not None) and (X.shape[1] != len(self.cell))` *)
-Definition dim_mismatch (celldim : option nat) (dim : nat) : bool :=
-  match celldim with Some k => negb (Nat.eqb dim k) | None => false end.
+(* `(cell is not None) and (X.shape[1] != len(cell))` *)
+Definition cell_mismatch (cells : list nat) (cell : option nat) (dim : nat) : bool :=
+  match cell with Some k => negb (Nat.eqb dim (nth k cells 0%nat)) | None => false end.
+(* fit raises ValueError before anything is touched if the cell recorded by __init__ (self.cell)
+   does not fit the data, or -- inside the metric, _check_dimension -- the cell in force does not *)
+Definition fit_guard (cells : list nat) (x : qest) (q : qdata) : bool :=
+  cell_mismatch cells (e_cell0 x) (q_dim q) || cell_mismatch cells (e_cell x) (q_dim q).
 
-Definition qstep (celldim : option nat) (S : qstate) (o : qop) : qstate * qobs :=
+Definition qstep (S : qstate) (o : qop) : qstate * qobs :=
   match o with
-  | New e c s2 sh =>
-      match construct (s_cuts S) c s2 sh with
+  | New e c s2 sh cell =>
+      match construct (s_cuts S) c s2 sh cell with
       | Some x => (set_est S e x, ObsNew (e_cut x))
       | None => (S, ObsErr)
       end
   | Fit e d =>
       let x := get_est S e in
       let q := get_data S d in
-      if dim_mismatch celldim (q_dim q) then (S, ObsErr)        (* raised before anything is touched *)
+      if fit_guard (s_cells S) x q then (S, ObsErr)
       else match est_fit x q with
-           | Some R => (set_est S e (mkEst (e_cut x) (e_shell x) (Some R)), ObsFit R (centres R))
+           | Some R => (set_est S e (mkEst (e_cut x) (e_shell x) (e_cell x) (e_cell0 x) (Some R)), ObsFit R (centres R))
            | None => (S, ObsErr)
            end
-  | SetShell e sh =>
-      let x := get_est S e in
-      (set_est S e (mkEst (e_cut x) (Some sh) (e_labels x)), ObsUnit)
+  | SetShell e _ | SetCell e _ | SetScale e _ =>
+      (set_est S e (cfg_step (s_cuts S) (get_est S e) o), ObsUnit)
+  | SetCut e _ =>
+      let y := cfg_step (s_cuts S) (get_est S e) o in
+      (set_est S e y, ObsNew (e_cut y))
   | SetW d w =>
       let q := get_data S d in
       (set_data S d (mkData (q_dim q) (q_D q) w), ObsUnit)
   | Read e => (S, ObsRead (e_labels (get_est S e)))
   end.
 
-Fixpoint qrun (celldim : option nat) (S : qstate) (ops : list qop) : qstate * list qobs :=
+Fixpoint qrun (S : qstate) (ops : list qop) : qstate * list qobs :=
   match ops with
   | [] => (S, [])
   | o :: rest =>
-      let (S1, b) := qstep celldim S o in
-      let (S2, bs) := qrun celldim S1 rest in
+      let (S1, b) := qstep S o in
+      let (S2, bs) := qrun S1 rest in
       (S2, b :: bs)
   end.
 
@@ -109,11 +150,10 @@ Definition obs_eqb (a b : qobs) : bool :=
   end.
 
 (* the implementation's trace of the session and the caller's cut-off arrays afterwards *)
-Definition session_ok (celldim : option nat) (S : qstate) (ops : list qop) (trace : list qobs)
-           (cuts_after : list (list Z)) : bool :=
-  let (S', tr) := qrun celldim S ops in
+Definition session_ok (S : qstate) (ops : list qop) (trace : list qobs) (cuts_after : list (list Z)) : bool :=
+  let (S', tr) := qrun S ops in
   list_eqb obs_eqb tr trace && list_eqb zl_eqb (s_cuts S') cuts_after.
 
 (* positions of the steps whose observation differs (for the report) *)
-Definition session_diff (celldim : option nat) (S : qstate) (ops : list qop) (trace : list qobs) : list nat :=
-  failing (map2 obs_eqb (snd (qrun celldim S ops)) trace).
+Definition session_diff (S : qstate) (ops : list qop) (trace : list qobs) : list nat :=
+  failing (map2 obs_eqb (snd (qrun S ops)) trace).
